@@ -24,14 +24,18 @@ from ..mbworld import MailboxWorld
 
 OBS_NAMES = ["NoInternal", "DocVerdict", "OnceEach", "Causal", "VersionsFirst", "LateGets", "InOrderOnce",
              "VersionsHonest", "AllDelivered", "KeyEstablished", "ClosedOnce", "NothingAfter", "Verdict", "Freed",
-             "CloseCompletes", "KeyAgree", "OnlyOneCode", "Backed"]
+             "CloseCompletes", "KeyAgree", "OnlyOneCode", "Backed", "StatusSane", "VerdictKnown"]
+# predicates and model invariants that belong to no listed property: reported in the evidence, never a VIOLATION
+SUPPLEMENTARY = ["StatusSane"]
+SUPPLEMENTARY_INVARIANTS = ["StatusConsistent"]
+SUPPLEMENTARY_PROPERTIES = ["StatusMonotone"]
 
 # which observer predicates decide which property
 DECIDES = {
     "C01": ["KeyAgree", "KeyEstablished"],
-    "C02": ["InOrderOnce", "VersionsHonest", "Backed"],
+    "C02": ["InOrderOnce", "VersionsHonest", "Backed", "OnceEach"],
     "C03": ["InOrderOnce"],
-    "C08": ["ClosedOnce", "NothingAfter", "Verdict", "Freed", "CloseCompletes"],
+    "C08": ["ClosedOnce", "NothingAfter", "Verdict", "VerdictKnown", "Freed", "CloseCompletes"],
     "C09": ["AllDelivered", "KeyEstablished", "OnceEach", "InOrderOnce", "CloseCompletes"],
     "C14": ["NoInternal", "DocVerdict"],
     "C18": ["OnceEach", "Causal", "VersionsFirst", "LateGets"],
@@ -42,7 +46,7 @@ MODEL_INVARIANTS = {
     "C01": ["KeyAgreement", "VerifiedImpliesSameCode", "MismatchSilent"],
     "C02": ["NoForgery"],
     "C03": ["InOrderOnce"],
-    "C08": ["ClosedOnce", "NothingAfter", "VerdictRight", "ServerFreedAtClose"],
+    "C08": ["ClosedOnce", "NothingAfter", "VerdictRight", "VerdictKnown", "ServerFreedAtClose"],
     "C09": ["InOrderOnce", "OnceEach"],
     "C14": ["NoInternalError", "DocumentedVerdict"],
     "C18": ["OnceEach", "CausalOrder", "VersionsFirst"],
@@ -206,7 +210,7 @@ class RealRun:
                 p = pr[c]
                 proj[c] = {"st": p["st"], "nextTx": p["nextTx"], "nextRx": p["nextRx"], "up": p["up"],
                            "closing": p["closing"], "ev": [e[0] for e in self._spec_events(c)], "errs": p["errs"],
-                           "pend": p["pend"], "c2s": len(p["c2s"]), "s2c": len(p["s2c"])}
+                           "pend": p["pend"], "c2s": len(p["c2s"]), "s2c": len(p["s2c"]), "status": p["status"]}
             self.lines.append({"tid": self.tid, "i": len(self.lines) + 1, "a": spec_act, "proj": proj})
 
     def _spec_events(self, c):
@@ -254,7 +258,12 @@ class RealRun:
         while n < limit:
             acts = w.enabled(faults=False)
             if not acts:
-                return True
+                # a WebSocket closing handshake the server began ends with the TCP connection going away: part of a fair
+                # completion, not a new fault (the client then reconnects)
+                half = [c for c in w.conns if c.state == "open" and getattr(c, "wsclosing", False)]
+                if not half:
+                    return True
+                acts = [{"a": "Drop", "k": half[0].id}]
             a = acts[0]
             self.apply(a, spec_act=world_to_spec(self, a))
             n += 1
@@ -1091,13 +1100,22 @@ def run_pipeline(prop, tier, v, quick):
                 known_errs.update(k.get("model_errs", []))
         from concurrent.futures import ThreadPoolExecutor
         cfgs = cfgs_for(prop, tier)
+        supp_model = []
 
         def check_one(item):
             name, consts = item
             consts = dict(consts, KnownErrs=known_errs)
             mname = "MC_%s_%s" % (prop, name)
-            common.write_model(wd, mname, "Wormhole", consts, invariants=MODEL_INVARIANTS[prop], view="view")
-            return name, mname, tlc.run(mname + ".tla", mname + ".cfg", cwd=wd.path, timeout=3000, workers=6 if quick else 16, heap="4g" if quick else "8g")
+            kw = dict(cwd=wd.path, timeout=3000, workers=6 if quick else 16, heap="4g" if quick else "8g")
+            common.write_model(wd, mname, "Wormhole", consts, invariants=MODEL_INVARIANTS[prop] + SUPPLEMENTARY_INVARIANTS,
+                               properties=SUPPLEMENTARY_PROPERTIES, view="view")
+            r = tlc.run(mname + ".tla", mname + ".cfg", **kw)
+            if r.violated in SUPPLEMENTARY_INVARIANTS + SUPPLEMENTARY_PROPERTIES or (not r.ok and not r.violated and "StatusMonotone" in (r.stdout or "")):
+                # a supplementary invariant stopped the exploration: note it, and decide the listed ones without it
+                supp_model.append({"config": name, "violated": r.violated or "StatusMonotone"})
+                common.write_model(wd, mname, "Wormhole", consts, invariants=MODEL_INVARIANTS[prop], view="view")
+                r = tlc.run(mname + ".tla", mname + ".cfg", **kw)
+            return name, mname, r
         # (quick: the configurations are small - three at a time with six workers each; thorough: one after the other)
         with ThreadPoolExecutor(max_workers=3 if quick else 1) as ex:
             results = list(ex.map(check_one, list(cfgs.items())))
@@ -1331,6 +1349,13 @@ def run_pipeline(prop, tier, v, quick):
         # ---- 4. the observer decides
         verdicts, robs = run_observer(wd, records)
         cov["exercised"] = {n: EXERCISED.get(n, 0) for n in DECIDES[prop]}
+        cov["supplementary"] = {
+            "note": "beyond the listed properties (evidence only): WormholeStatus reports are modelled in Wormhole.tla and compared in both "
+                    "conformance directions; StatusConsistent / StatusMonotone are checked by TLC in every configuration and "
+                    "MailboxObs.P_StatusSane on every recorded real execution",
+            "model_invariants": SUPPLEMENTARY_INVARIANTS + SUPPLEMENTARY_PROPERTIES, "model_violations": supp_model,
+            "observer": {n: {"runs_with_something_to_judge": EXERCISED.get(n, 0),
+                             "false_on": [t for t in sorted(verdicts) if not verdicts[t][n]][:10]} for n in SUPPLEMENTARY}}
         for n, k in cov["exercised"].items():
             if k == 0:
                 cov.setdefault("notes", []).append("vacuous: no run gave predicate %s anything to judge" % n)
